@@ -1,0 +1,31 @@
+//go:build verif
+
+package util
+
+import (
+	"os"
+	"strconv"
+)
+
+// verifKillPoint ends the process at the n-th step of WriteFileAt when the environment variable
+// VERIF_KILL_POINT is "n" or "n:<file name>" (then only while that file is written).
+// Used by the verification harness to stop a victim process at an exact step of chunk persistence.
+func verifKillPoint(n int, filename string) {
+	spec := os.Getenv("VERIF_KILL_POINT")
+	if spec == "" {
+		return
+	}
+	point := spec
+	for i := 0; i < len(spec); i++ {
+		if spec[i] == ':' {
+			point = spec[:i]
+			if spec[i+1:] != filename {
+				return
+			}
+			break
+		}
+	}
+	if k, err := strconv.Atoi(point); err == nil && k == n {
+		os.Exit(99)
+	}
+}
